@@ -236,6 +236,18 @@ theorem mstep_ok (f : Flavour) (st st' : MState) (o : Obs) (hs : mstep f st o = 
               · exact Or.inr (Or.inl h)
               · exact Or.inr (Or.inr ⟨hh, h⟩)
 
+/-- an accepted request other than TEARDOWN leaves the connection open -/
+theorem mstep_open (f : Flavour) (st st' : MState) (o : Obs) (h : mstep f st o = .ok st') (hp : st.phase ≠ .closed)
+    (hh : o.hangup = false) (hm : o.method ≠ .teardown) : o.closed = false := by
+  unfold mstep at h
+  have hp' : (st.phase == Phase.closed) = false := by simpa using hp
+  simp only [hp', Bool.false_eq_true, ↓reduceIte, hh] at h
+  repeat' (first | (cases h; done) | split at h)
+  all_goals (unfold mstepResp at h)
+  all_goals (have hm' : (o.method == Method.teardown) = false := by simpa using hm)
+  all_goals (simp only [hm', Bool.false_eq_true, ↓reduceIte] at h)
+  all_goals (cases hc : o.closed <;> simp_all)
+
 theorem mstep_need (f : Flavour) (st st' : MState) (o : Obs) (H : List (Method × Nat)) (hfr : o.frame = false)
     (hs : mstep f st o = .ok st') (hn : (need st.phase).Sublist H) :
     (need st'.phase).Sublist (H ++ history [o]) := by
